@@ -84,6 +84,7 @@ let () =
           | Inl x -> w "E"; w (exc_name x)
           | Inr s -> w "O"; wr_str s)
        | "SPACES" -> for c = 0 to 0x10FFFF do if py_isspace (n_of_int c) then w (string_of_int c) done
+       | "FLUSH" -> w "flushed"
        | "RESET" -> st := empty_store; w "ok"
        | "OP" ->
          (match next () with
@@ -103,5 +104,6 @@ let () =
          wr_resp (do_render_status (nfkd_of tbl) (qinfo_of !st) c wn)
        | t -> failwith ("bad command " ^ t))
     with Failure m -> Buffer.clear b; w ("ERR " ^ m));
-    print_string (Buffer.contents b); print_char '\n'
+    print_string (Buffer.contents b); print_char '\n';
+    if line = "FLUSH" then flush stdout
   done with End_of_file -> ()
